@@ -1,7 +1,7 @@
 /-!
 # M6 — small-step interleaving model of the locking / CAS / channel protocol of godi
 
-Anchors: `/repo/scope.go` and `/repo/provider.go` as of commit `0cb30f3` (after the `fix:` commits
+Anchors: `/repo/scope.go` and `/repo/provider.go` as of commit `975a6cd` (after the `fix:` commits
 `1998b84`, `2bd1169`, `611f8a8`, `d23542b`, `0c7a2e0`, `64d7b34`, `0cb30f3`): line numbers in the
 comments below refer to those two files at that commit; `(*scope).Close` is `dispose`
 (scope.go:275-353) behind a thin wrapper. When
@@ -98,13 +98,13 @@ inductive Pc
   | rMu (k : Key) (o : Bool)              -- scope.go:364-373  creatingMu region: find or make the mutex
   | rLock (k : Key) (o : Bool)            -- scope.go:375  m.Lock()            BLOCKING
   | rRe (k : Key) (o : Bool)              -- scope.go:522 -> 382-384  second look at the cache
-  | rCtor (k : Key) (o : Bool)            -- scope.go:599  USER constructor
+  | rCtor (k : Key) (o : Bool)            -- scope.go:607  USER constructor
   | rSet (k : Key) (o : Bool) (i : Inst)  -- scope.go:397-401  Lock instancesMu; if != nil write; Unlock
   | rTrk (k : Key) (o : Bool) (i : Inst)  -- scope.go:436-448  Lock disposablesMu; load disposed; append; Unlock
   | rSelf (k : Key) (o : Bool) (i : Inst) -- scope.go:440  USER Close of the late instance
   | rUnl (k : Key) (o : Bool) (r : Res)   -- scope.go:520  deferred m.Unlock()
   -- `scope.Get` of a transient
-  | tChk | tCtor | tTrk (i : Inst) | tSelf (i : Inst)   -- 130, 599, 404 -> 436-448, 440
+  | tChk | tCtor | tTrk (i : Inst) | tSelf (i : Inst)   -- 130, 607, 404 -> 436-448, 440
   -- `scope.Get` of a singleton
   | gChk | gLoad                                        -- 130, 490 (sync.Map.Load, provider.go:266)
   | gMiss1                                              -- scope.go:496  after a miss: load s.disposed
